@@ -41,10 +41,11 @@ PROPS["C13"] = {
 
 PROPS["C14"] = {
     "harness": "limsim", "test": "TestC14", "quick_s": 30, "thorough_s": 900, "batch": 100,
-    "rule": "one evaluation = one simulated run in one of four modes: rate-projection (shared TokenLimiter vs one limiter per source in lock-step on the simulated clock, sources within capacity), "
+    "rule": "one evaluation = one simulated run in one of several modes: rate-projection (shared TokenLimiter vs one limiter per source in lock-step on the simulated clock, sources within capacity), "
             "rate-eviction (capacity 1-4, up to 3x as many sources; model: each insertion into a full limiter forgets exactly the oldest tracked source; every access compared with a per-source twin that is "
             "reset when the model says the source was forgotten), conn-twin (shared ConnLimiter vs per-source ConnLimiter, same arrivals/finishes/panics), conn-fine (fine-grained schedules, porcupine with the "
-            "model partitioned by source); non-trivial = requests of different sources interleaved with a rejection / at least one eviction / two sources in flight at once; distinct = run digest",
+            "model partitioned by source), rate-broken-sink (capacity 1-3, entries expire within the run, the caller's log sink breaks once at the n-th call of a drawn level and the request that was logging is lost; "
+            "a twin limiter with a healthy logger gets the same requests and must go on answering alike); non-trivial = requests of different sources interleaved with a rejection / at least one eviction / two sources in flight at once / a request lost to a broken log sink; distinct = run digest",
     "technique": "deterministic simulation: projection (non-interference) differential against per-source twin limiters in lock-step on the simulated clock and scheduler; eviction model for over-capacity workloads; porcupine partitioned by source for fine-mode connection-limiter histories",
     "level_text": "seeded search over interleaved multi-source histories, capacities and schedules of the real TokenLimiter/ConnLimiter; sampled, not exhaustive",
     "level_note": "trusted: simrt, frozen clock, rapid, porcupine; the over-capacity workload keeps creation order equal to last-use order and accesses of different sources at least one second apart, so that 'nearest to expiry' is unambiguous at the ttl map's one-second granularity",
